@@ -390,6 +390,64 @@ def o5_show_clients(chk, prog):
     chk.end(ob)
 
 
+POOL_COLS = ('cl_idle', 'cl_active', 'cl_waiting', 'cl_cancel_req', 'sv_active', 'sv_idle', 'sv_used', 'sv_tested', 'sv_login')
+
+
+@expectation('c18_pool_row')
+def c18_pool_row():
+    """Native: PoolStats::generate_header / generate_row on a PoolStats whose counters are all different."""
+    def f(res):
+        for r in res:
+            if 'error' in r or 'panic' in r:
+                return False, 'native: %r' % (r,)
+            bad = [(h, v) for h, v in zip(r.get('header', []), r.get('row', [])) if h in r.get('fields', {}) and str(r['fields'][h]) != v]
+            if bad or len(r.get('header', [])) != len(r.get('row', [])):
+                return True, 'native: SHOW POOLS columns that do not carry the counter they are named after: %r' % (bad,)
+        return False, 'native: %r' % (res,)
+    return f
+
+
+def o6_pool_row(chk, prog):
+    """SHOW POOLS / SHOW LISTS print what construct_pool_lookup counted: the column named X carries the counter X."""
+    ob = chk.begin('O6-pool-row', 'PoolStats::generate_header and generate_row (what SHOW POOLS sends per pool) on a PoolStats whose nine counters are pairwise different and whose maxwait is '
+                   '7 000 123 us: header and row have the same length, the column named after a counter carries that counter in decimal, database / user are the pool\'s, '
+                   'maxwait / maxwait_us are the seconds and the remaining microseconds', {})
+    gh = prog.lookup('PoolStats::generate_header')
+    gr = prog.lookup('PoolStats::generate_row')
+    if len(gh) != 1 or len(gr) != 1:
+        raise Inconclusive('cannot locate PoolStats::generate_header / generate_row')
+    ip = chk.interp(prog, 'O6-pool-row')
+
+    def harness(ip_):
+        names = prog.src.structs['PoolStats']
+        ident_names = prog.src.structs['PoolIdentifier']
+        iv = {'db': rstring('dbx'), 'user': rstring('ux')}
+        vals = {'identifier': Agg([iv[n] for n in ident_names], 'PoolIdentifier', list(ident_names)), 'mode': ip_.make_enum('PoolMode', 'Transaction'), 'maxwait': BV(64, 7000123)}
+        fields = {}
+        for i, c_ in enumerate(POOL_COLS):
+            fields[c_] = 11 + i
+            vals[c_] = BV(64, 11 + i)
+        missing = [n for n in names if n not in vals]
+        if missing:
+            raise Inconclusive('PoolStats fields %r unknown to the harness' % (missing,))
+        ps = Agg([vals[n] for n in names], 'PoolStats', list(names))
+        hdr = ip_.call_function(gh[0], [])
+        row = ip_.call_function(gr[0], [Ptr(Cell(ps, 'poolstats'))])
+        ob.nontrivial += 1
+        hn = [bytes(b.v for b in items(ip_, h.fields[0])).decode() for h in hdr.items]
+        rv = [bytes(b.v for b in items(ip_, x)).decode() if all(b.concrete for b in items(ip_, x)) else None for x in row.items]
+        want = dict({k: str(v) for k, v in fields.items()}, database='dbx', user='ux', maxwait='7', maxwait_us='123')
+        bad = [(h, v, want[h]) for h, v in zip(hn, rv) if h in want and v != want[h]]
+        if len(hn) != len(rv) or bad or any(k not in hn for k in want):
+            chk.report(ob, 'C18/O6/pool-row', 'SHOW POOLS: header %r, row %r -- columns that do not carry what they are named after: %r' % (hn, rv, bad), {},
+                       {'commands': [{'op': 'pool_row', 'fields': dict(fields, maxwait=7000123)}], 'expect': ['c18_pool_row']})
+        if not ob.samples:
+            ob.samples.append({'header': hn, 'row': rv})
+    ip.explore(harness)
+    chk.absorb(ob, ip)
+    chk.end(ob)
+
+
 def o1_rollup(chk, prog, cpools, spools):
     nclients, nservers = len(cpools), len(spools)
     name = 'O1-rollup-clients%s-servers%s' % (''.join(map(str, cpools)), ''.join(map(str, spools)))
@@ -495,7 +553,7 @@ def main(chk):
         '(O3) a CancelRequest connection -- the real Client::cancel, handle in cancel mode, the drop -- makes no statistics call on the entry of the process id it names. '
         '(O4) bb8\'s connect hook, ServerPool::connect from MIR with Server::startup succeeding or failing: the connection is registered once and handed to bb8 in state idle; '
         'a failed connect leaves nothing registered. (O5) SHOW CLIENTS as the admin console renders it (admin::handle_admin from MIR over a registry of two clients with symbolic states): one row per '
-        'registered client with its own id, pool, user, application, its state in words and its own totals in the columns named so. NOT decided: the rendering of SHOW POOLS / SERVERS / LISTS, consistency of the global registries under concurrent tasks, Server::drop\'s disconnect, '
+        'registered client with its own id, pool, user, application, its state in words and its own totals in the columns named so. (O6) SHOW POOLS rows: the column named after a counter carries that counter (PoolStats::generate_header / generate_row from MIR). NOT decided: the rendering of SHOW SERVERS / LISTS, consistency of the global registries under concurrent tasks, Server::drop\'s disconnect, '
         'bytes/error totals, and that totals never decrease across pool reloads.')
     chk.assumptions += [
         'one session at a time; the registries themselves (RwLock<HashMap>) and their concurrent readers are not encoded',
@@ -514,6 +572,10 @@ def main(chk):
         o5_show_clients(chk, prog)
     except Inconclusive as e:
         chk.note_inconclusive('O5-show-clients: %s' % e)
+    try:
+        o6_pool_row(chk, prog)
+    except Inconclusive as e:
+        chk.note_inconclusive('O6-pool-row: %s' % e)
     try:
         o3_cancel_conn(chk, prog)
     except Inconclusive as e:
